@@ -132,8 +132,10 @@ func (aux *Aux) LoadForm() slip.Object {
 		method := aux.methods[k]
 		sll := make(slip.List, len(method.Doc.Args))
 		for i, da := range method.Doc.Args {
-			if i < aux.reqCnt {
+			if i < aux.reqCnt && 0 < len(da.Type) {
 				sll[i] = slip.List{slip.Symbol(da.Name), slip.Symbol(da.Type)}
+			} else if i < aux.reqCnt {
+				sll[i] = slip.Symbol(da.Name)
 			} else {
 				if da.Name[0] == '&' || da.Default == nil {
 					sll[i] = slip.Symbol(da.Name)
